@@ -518,6 +518,36 @@ func printAll(run *core.Run, f *dst.File, c evalCfg, prefix, name string, data [
 			return
 		}
 	}
+	{
+		// one FileRestorer used for a good file first and then for this tree (RestoreFile resets the
+		// FileRestorer between files by its own account); with and without Extras
+		w := &faults.Writer{FailAt: -1}
+		var err error
+		pi := core.Catch(func() {
+			g, gerr := decorator.Parse(goodFile)
+			if gerr != nil {
+				panic("harness: the good file does not parse")
+			}
+			r := decorator.NewRestorer()
+			r.Extras = c.extras
+			fr := r.FileRestorer()
+			if e := fr.Fprint(&faults.Writer{FailAt: -1}, g); e != nil {
+				panic("harness: the good file does not print: " + e.Error())
+			}
+			err = fr.Fprint(w, f)
+		})
+		if pi != nil && strings.HasPrefix(pi.Value, "harness:") {
+			panic(pi.Value)
+		}
+		saved := prefix
+		if c.extras {
+			prefix = "extras"
+		}
+		if !check("reused FileRestorer.Fprint", w, err, pi) {
+			return
+		}
+		prefix = saved
+	}
 	if c.extras {
 		w := &faults.Writer{FailAt: -1}
 		var err error
